@@ -670,7 +670,14 @@ class UpdateCollection(Message):
                 mandatory.append(Attribute.CODE.NEXT_HOP)
             for code in mandatory:
                 if code not in attributes:
-                    attributes.add(TreatAsWithdraw(code))
+                    # the attribute set may be the cached one, shared with every UPDATE carrying the same
+                    # attribute bytes: whether a mandatory attribute is missing depends on the routes of
+                    # THIS UPDATE, so the mark goes on a set of its own
+                    marked = AttributeCollection()
+                    for attribute in attributes.values():
+                        marked.add(attribute)
+                    marked.add(TreatAsWithdraw(code))
+                    attributes = marked
                     break
 
         if Attribute.CODE.INTERNAL_TREAT_AS_WITHDRAW in attributes:
